@@ -224,7 +224,7 @@ def run(tier, replay=None):
         "counts": dict(cnt), "semantic_buckets": dict(buckets), "modelled_parts": len(sem_items),
         "unmodelled_by_reason": dict(unmodelled.most_common(40)), "known_class_failures_by_carve_out_class": dict(by_class),
         "certified_examples": examples.get("_certified", []),
-        "certificate_conjuncts (ctx ok, WFStmts, WFES, CarveProgSem, HybFreeSs, HSameProg)": dict(cert_detail), "violations_total": len(viol),
+        "certificate_conjuncts (ctx ok, WFStmts, WFES, CarveProgSem, HybFreeSs, HSameProg, CarveProgSem with low-bits flag)": dict(cert_detail), "violations_total": len(viol),
         "samples": [{"instruction": it["insn"], "program": it["src0"][:200], "status": it["status"], "modelled": "ast" in it} for it in items[:4]],
     })
     res.assumptions += ["parts outside the modelled dialect (reasons counted in unmodelled_by_reason) are checked per output only (sort/well-formedness/ownership), not semantically",
